@@ -41,12 +41,20 @@ def fh_arg(fh, origin, variant=0):
     if not fh["steps"]:
         return None
     if fh["rel"]:
-        if variant % 3 == 0:
+        v = variant % 5
+        if v == 0:
             return list(fh["steps"])
-        if variant % 3 == 1:
+        if v == 1:
             return np.array(fh["steps"])
-        return ForecastingHorizon(list(fh["steps"]), is_relative=True)
-    return ForecastingHorizon([s + origin for s in fh["steps"]], is_relative=False)
+        if v == 2:
+            return ForecastingHorizon(list(fh["steps"]), is_relative=True)
+        if v == 3:   # any order, as an integer index: the horizon is a set of steps
+            return pd.Index(list(reversed(fh["steps"])), dtype="int64")
+        return list(reversed(fh["steps"])) if len(fh["steps"]) > 1 else int(fh["steps"][0])
+    times = [s + origin for s in fh["steps"]]
+    if variant % 2:
+        return ForecastingHorizon(pd.Index(list(reversed(times)), dtype="int64"), is_relative=False)
+    return ForecastingHorizon(times, is_relative=False)
 
 
 def make_cv(cv):
